@@ -27,7 +27,7 @@ ASSUMPTIONS = ['pysam BAM writing/reading is the storage; its own refusal of nam
                'expected field values come from the raw reads through the hand-written layout table and the independent 52-letter code']
 MIN_NONTRIVIAL = {'quick': 300, 'thorough': 30000}
 REQUIRED_MONITORS = ['totality:single_chars', 'totality:pairs', 'roundtrip:reads_decoded', 'roundtrip:fields_compared',
-                     'length:refused_loudly', 'length:stored_exactly', 'history:fitting_then_overlong_in_one_library', 'roundtrip:cell_index_zero']
+                     'length:refused_loudly', 'length:stored_exactly', 'history:fitting_then_overlong_in_one_library', 'roundtrip:cell_index_zero', 'roundtrip:mates_digested_separately']
 SHARD_TIMEOUT = {'quick': 600, 'thorough': 3600}
 PHRED_TAGS = {'QX', 'QT', 'RQ', 'BZ', 'QM', 'lq', 'aQ', 'AQ', 'E2', 'EQ', 'eq', 'is', 'H1', 'H3'}
 
@@ -244,7 +244,14 @@ def run_library(acc, d, dmx, strategy, name, wl, iwl, r, lib, n, single, case_id
                 acc.violate('name-changed-by-storage', f'{name}: stored name differs from the header ({len(nm)} chars)', {'header': nm, 'stored': a.query_name})
         acc.count('length:stored_exactly')
         try:
-            qf.digest(grp if per == 2 else [grp[0], None])
+            if per == 2 and j % 3 == 1:
+                # the mates of a pair do not always reach the tagger together (mate on another contig / unmapped): each is decoded from
+                # its own name, whichever slot it arrives in
+                qf.digest([grp[0], None])
+                qf.digest([None, grp[1]])
+                acc.count('roundtrip:mates_digested_separately')
+            else:
+                qf.digest(grp if per == 2 else [grp[0], None])
         except Exception as ex:
             acc.violate('decoder-raised:' + type(ex).__name__, f'{name}: QueryNameFlagger.digest raised {ex!r} on header {names[0][:200]}',
                         {'header': names[0], 'library': lib})
